@@ -24,7 +24,6 @@ import (
 	"encoding/json"
 	"flag"
 	"fmt"
-	"math/bits"
 	"math/rand"
 	"os"
 	"sort"
@@ -42,19 +41,9 @@ import (
 )
 
 // ---------------------------------------------------------------- digest (same function as BWStore.Corr)
-const dM = uint64(2305843009213693951)
 const dP = uint64(1000003)
 
-func dmix(h, x uint64) uint64 {
-	hi, lo := bits.Mul64(h, dP)
-	var c uint64
-	lo, c = bits.Add64(lo, x, 0)
-	hi += c
-	lo, c = bits.Add64(lo, 1, 0)
-	hi += c
-	_, r := bits.Div64(hi, lo, dM)
-	return r
-}
+func dmix(h, x uint64) uint64 { return dP*h + x + 1 }
 
 func dlist(h uint64, l []uint64) uint64 {
 	for _, x := range l {
